@@ -93,7 +93,10 @@ def _run_engine_case(sc):
 
 
 def strategy(tier):
-    return st.integers(0, 3).flatmap(lambda k: scenario(P_MULTI) if k == 0 else sc_default)
+    from bvt.props._scen import with_wal
+
+    # (every second multi-bus scenario carries events with payloads that cannot be serialised: accepting them must still be all-or-nothing)
+    return st.integers(0, 3).flatmap(lambda k: with_wal(scenario(P_MULTI), 2) if k == 0 else sc_default)
 
 
 MINE = ('C14.a', 'C14.b', 'C14.c', 'C14.d', 'C14.e')
